@@ -15,7 +15,7 @@ class Family:
 
     def __init__(self, rng, k=3, nslots=7, name="fam"):
         self.k = k
-        self.slots = []     # per function: list of ("bind", var, tags) | ("call",) | ("raise",)
+        self.slots = []     # per function: list of ("bind", var, tags) | ("call",) | ("gen",) | ("raise",) | ("decl", var, tags)
         src = ["from ptera import tag", "FUNS = []", "class Boom(Exception):\n    pass", "",
                "def hgen0():\n    i = 0\n    while True:\n        i = i + 1\n        yield i", "",
                "GEN = None", "",
@@ -34,8 +34,13 @@ class Family:
                     # a suspended instrumented generator (started outside of everything) is advanced one step:
                     # invisible to every selector, and it must leave the handler context as it found it
                     slots.append(("gen",))
-                else:
+                elif r < 0.965:
                     slots.append(("raise",))
+                else:
+                    # a bare declaration that nothing supplies: the call fails there with ptera's name error (an
+                    # activation that ends by raising, like the slot above) and NOTHING is bound — no handler may
+                    # see a value for the variable
+                    slots.append(("decl", rng.choice(mine), rng.choice([["T"], ["U"], ["T", "U"]])))
             # make sure every variable is bound somewhere and there are calls
             for v in mine:
                 if not any(s[0] == "bind" and s[1] == v for s in slots):
@@ -53,6 +58,8 @@ class Family:
                     src.append("    if s[%d] is not None:\n        FUNS[s[%d][0]](s[%d][1])" % (j, j, j))
                 elif sl[0] == "gen":
                     src.append("    if s[%d] is not None:\n        _adv()" % j)
+                elif sl[0] == "decl":
+                    src.append("    if s[%d] is not None:\n        %s: '%s'" % (j, sl[1], " & ".join("@" + t for t in sl[2])))
                 else:
                     src.append("    if s[%d] is not None:\n        raise Boom()" % j)
             src.append("    return s[%d]" % len(slots))
@@ -137,6 +144,21 @@ class Family:
         if raised:
             items.append({"name": "!raise", "cat": None, "value": None})
         return {"fn": fi, "items": items}, raised
+
+    def fires_decl(self, fi, script):
+        """-> (a bare declaration is executed, the activation ends by raising)"""
+        for sl, val in zip(self.slots[fi], script):
+            if val is None or sl[0] in ("bind", "gen"):
+                continue
+            if sl[0] == "call":
+                d, r = self.fires_decl(val[0], val[1])
+                if d or r:
+                    return d, True
+            elif sl[0] == "decl":
+                return True, True
+            else:
+                return False, True
+        return False, False
 
     def n_activations(self, script, fi):
         n = 1
